@@ -7,7 +7,7 @@ PROPERTY = "C10"
 LEVEL = "exploration"
 RULE = (
     "cases = (CancelOnShutdownExecutor, with a recording tap directly below it, over a manual base or over retry / poll / map / "
-    "throttle layers on a manual or thread-pool base; 0-5 earlier futures that are pending, running (callable blocked on a gate) or "
+    "throttle layers on a manual or thread-pool base, that tap in a quarter of the cases coalescing requests (it answers every second submit() with the previous, still pending, Future object); 0-5 earlier futures that are pending, running (callable blocked on a gate) or "
     "done; 1-3 submitter threads calling submit() concurrently with the one thread calling shutdown(wait in {True, False}); done-callbacks "
     "that try to submit again; tape; both clock modes). Enumerated: submit || shutdown programs for each inner stack with every single "
     "pre-emption placement. Oracle when shutdown() has returned: every future any submit() returned that was not done by then has had "
@@ -30,9 +30,12 @@ INNER = {
 }
 
 
-def build(inner):
+def build(inner, coalesce=False):
     base, layers = INNER[inner]
-    return ["build", "ex", {"base": base, "layers": list(layers) + [{"kind": "cos", "tap": True}]}]
+    top = {"kind": "cos", "tap": True}
+    if coalesce:
+        top["coalesce"] = True  # the executor directly below answers every second submit() with the previous, still pending, future
+    return ["build", "ex", {"base": base, "layers": list(layers) + [top]}]
 
 
 def sub(name, script=None):
@@ -51,6 +54,11 @@ def catalog():
             "setup": setup,
             "threads": [[["shutdown", "ex", True, {"cancel_futures": True}], ["shutdown", "ex", True]], [sub("s0"), sub("s1")], [sub("s2")]],
             "settle": 1, "final": [["open", "g"], ["sleep", 1]]}}
+        if inner in ("manual", "pool"):
+            out["race-coalescing-delegate/" + inner] = {"inner": inner, "prog": {
+                "setup": [build(inner, True)] + setup[1:],
+                "threads": [[["shutdown", "ex", True]], [sub("s0"), sub("s1")], [sub("s2")]],
+                "settle": 1, "final": [["open", "g"], ["sleep", 1]]}}
         out["race-nowait/" + inner] = {"inner": inner, "prog": {
             "setup": setup,
             "threads": [[sub("s0"), ["shutdown", "ex", False], sub("s3")], [sub("s1")], [sub("s2")]],
@@ -196,7 +204,7 @@ def case_strategy():
         inner = draw(st.sampled_from(sorted(INNER)))
         pool = inner.startswith("pool")
         npre = draw(st.integers(0, 5))
-        setup = [build(inner)]
+        setup = [build(inner, draw(st.integers(0, 3)) == 0)]
         for i in range(npre):
             script = draw(st.sampled_from([[["tag"]], [["tag"]], [["raise", "E0"], ["tag"]], [["gate", "g", ["tag"]]]]))
             if not pool and script[0][0] == "gate":
